@@ -33,6 +33,12 @@ CHECKS = {
  "C13": ("runtime monitor: DOM of the raw text as model for the full accessor transcript of LazyValue/OwnedLazyValue from 10 sources; verbatim re-serialisation; fragment-tree model for random mutation histories (pointer_mut/get_mut/replace/push/append_pair/take/clone) with earlier clones re-checked at the end; ASan",
          "Exploration over generated values of every JSON type (incl. bare literals), padded with random blanks, and 30k random mutation histories of up to 12 steps.",
          "Trusted: the DOM (itself under C03) as accessor model; harness fragment model (a parsed container re-serialises compactly with re-escaped keys, untouched children verbatim)."),
+ "C07": ("differential runtime monitor: Rust std str::parse (bit comparison) and an integer classifier as oracle for sonic_number::parse_number (every terminator, long/short remainder) and for from_str into f64/f32/Number/Value and all 11 integer widths; native and baseline-x86-64 builds (SIMD and scalar digit readers)",
+         "Exploration: exhaustive small-grammar strings, all digit counts 1..800, all powers of ten -400..400, exact halfway/near-halfway decimal expansions around arbitrary, subnormal, power-of-two, power-of-ten and max-finite f64 values (big-decimal arithmetic in the harness), 19/20-digit integer boundaries, long digit runs, huge and zero-padded exponents; quick ~20M parses.",
+         "Trusted: Rust std float parsing and formatting (exact decimal expansion via {:.1080}). For the literal `-0` both I64(0) and F64(-0.0) are accepted."),
+ "C08": ("runtime monitor: write->read bit identity for f64/f32/all integer widths (text route and DOM route), JSON-number recogniser on every output, RawNumber verbatim + accessor agreement with the literal classifier; arbitrary_precision build",
+         "Exploration: all 8/16-bit integers, wide/128-bit integers at boundaries and random, f64 over every exponent x {edge, random} mantissas incl. subnormals and -0.0, f32 stratified 2^24 (quick) / all 2^32 (thorough), 380k raw-number literals bare and quoted.",
+         "Trusted: harness JSON-number recogniser and classifier."),
  "C02": ("differential runtime monitor: independent RFC 8259 recogniser as accept/reject oracle over enumerated token sequences and mutated documents; ASan build",
          "Exploration: every listed entry point x carrier is executed on all token sequences up to the bound and on seeded generated/mutated documents; an independent recogniser decides what must be accepted. Held on the cases observed, not a proof over all byte strings.",
          "Trusted: the harness recogniser (cross-checked against serde_json), rustc, ASan runtime. Depth is capped at 64 so the permitted nesting-limit rejection never explains a verdict."),
